@@ -456,19 +456,44 @@ class StdioClient:
             raise
 
     async def __aexit__(self, exc_type, exc, tb):
-        """Shut down; shielded so that an outer cancellation cannot skip the cleanup."""
-        # Leaving because the caller was cancelled (or timed out) must still stop the
-        # tasks and terminate/kill the child. The shutdown is bounded by the two 1 s
-        # grace periods in _terminate_process, so shielding it is safe.
-        with anyio.CancelScope(shield=True):
+        """Shut down; the child is terminated even when the caller is being cancelled."""
+        try:
             return await self._shutdown(exc_type, exc, tb)
+        finally:
+            # Leaving because the caller was cancelled (or timed out) interrupts the
+            # shutdown above at its next checkpoint, but the child must still be
+            # terminated/killed. Only this step is shielded (it is bounded by the two
+            # 1 s grace periods): opening a new cancel scope around the task group's
+            # exit would break anyio's scope nesting.
+            if self.process:
+                with anyio.CancelScope(shield=True):
+                    try:
+                        if self.process.returncode is None:
+                            await self._terminate_process()
+                        # Release our ends of the child's pipes. The writer task may
+                        # have been cancelled before it could close stdin, and the
+                        # stdout descriptor is only released once end-of-file has been
+                        # seen, so drain what a (now dead) flooding child left behind.
+                        if self.process.stdin is not None:
+                            await self.process.stdin.aclose()
+                        if (
+                            self.process.stdout is not None
+                            and self.process.returncode is not None
+                        ):
+                            with anyio.move_on_after(1.0):
+                                async for _ in self.process.stdout:
+                                    pass
+                    except Exception as e:
+                        logger.debug(f"Error during stdio client shutdown: {e}")
 
     async def _shutdown(self, exc_type, exc, tb):
         """COMPLETE FIXED VERSION: Handle shutdown without JSON or cancel scope errors."""
         try:
-            # Close outgoing stream to signal stdin_writer to exit
+            # Close outgoing stream to signal stdin_writer to exit (synchronous close:
+            # no checkpoint, so a pending cancellation cannot stop us before the task
+            # group below has been cancelled and exited)
             if self._outgoing_send:
-                await self._outgoing_send.aclose()
+                self._outgoing_send.close()
 
             if self.tg:
                 # Cancel all tasks
